@@ -305,8 +305,10 @@ class Pool():
                     if worker_callback:
                         worker_callback(worker, 'idle')
 
-            def handle_unused_data(data, from_retries):
-                if not self._retry:
+            def handle_unused_data(data, from_retries, keep=False):
+                # ``keep``: the data has not been lost with a dead worker, it only has to wait for another worker
+                # (regardless of the retrying policy)
+                if not self._retry and not keep:
                     return
                 if from_retries:
                     self._retries.insert(0, data)
@@ -336,7 +338,7 @@ class Pool():
                             if enqueue_fn:
                                 if not enqueue_fn(worker, *inp):
                                     handle_no_enqueue(worker, 'user-provided enqueue function returned False')
-                                    handle_unused_data(inp, from_retries)
+                                    handle_unused_data(inp, from_retries, keep=True)
                                     return True
                             else:
                                 worker.enqueue(*inp)
